@@ -78,6 +78,9 @@ func dbgCheck(which string, plan kPlan, run kRun) (msg string) {
 
 func dbgDump(t *testing.T, run kRun) {
 	t.Logf("bubble: %s newclient=%q pending=%v closeOK=%v", run.Res, run.NewErr, run.PendingOps, run.CloseOK)
+	if run.Res.Frozen && os.Getenv("VERIF_CLUSTER_STACKS") != "" {
+		t.Log(run.Res.Goroutines)
+	}
 	for _, e := range run.Events {
 		if e.Kind == "recv" || e.Kind == "reply" && os.Getenv("VERIF_CLUSTER_REPLIES") != "" || e.Kind == "close" || e.Kind == "open" {
 			s := e.String()
